@@ -306,6 +306,21 @@ def extra_cov(cases, outs):
 
 def main(run, args):
     import checklib
+    # shrinking must not wander into a known class (dropping every entry of a failing object ends at the
+    # empty object, a known finding): only candidates outside the known classes are tried
+    orig_candidates = checklib.shrink_candidates
+
+    def candidates(c):
+        out = []
+        for d in orig_candidates(c):
+            try:
+                if kv_classes(d) | csv_classes(d):
+                    continue
+            except Exception:
+                continue
+            out.append(d)
+        return out
+    checklib.shrink_candidates = candidates
     n = 4000 if run.tier == "quick" else 80000
     if args.cases:
         n = args.cases
